@@ -20,7 +20,7 @@ RULE = ("Hypothesis draws a file history (0..4 earlier runs, matrices 1x1 .. 40x
         "remove on paths in the results directory) numbers the E I/O events of that save; then EVERY crash point k in 0..E (all of "
         "them when E <= 400, otherwise both ends and 200 interior points) is executed in three modes: kill (forked child, os._exit "
         "at event k, user-space buffers lost), torn (half of the chunk of a write event reaches the OS, then exit), interrupt "
-        "(KeyboardInterrupt at event k, normal unwinding). Oracle after each fault: the bytes of data.json are exactly the previous "
+        "(KeyboardInterrupt at event k, normal unwinding). Half of the cases place the results directory on a different file system than the process's scratch directory (tempfile.gettempdir(); /dev/shm here), so that a temporary file created 'somewhere' cannot be renamed into place. Oracle after each fault: the bytes of data.json are exactly the previous "
         "bytes (or the file is still absent) or the complete new content; the file parses and get_outputs_from_file returns all "
         "earlier runs unchanged; a subsequent un-faulted save of the same run yields previous + new. Non-trivial: crash strictly "
         "between the first and last I/O event of a save onto a file that already holds >= 1 run; distinct = (history hash, k, mode).")
@@ -32,7 +32,7 @@ LEVEL_NOTE = ("Process death is modelled at the Python I/O call boundary (where 
               "Left-over temporary files are allowed.")
 TECHNIQUE = "fault injection: exhaustive enumeration of I/O crash points (kill / torn write / interrupt) per Hypothesis-generated save history, previous-or-new oracle"
 ASSUMPTIONS = ["crash = process death or KeyboardInterrupt at an I/O call boundary; the kernel applies completed write(2)/rename(2) calls",
-               "results directory on one file system"]
+               "results directory on one file system (not necessarily the one holding $TMPDIR; when the sandbox offers no second file system those cases run on one and are labelled so)"]
 
 
 def _points(E: int, limit: int = 400, interior: int = 200) -> list[int]:
@@ -95,12 +95,27 @@ def _state_ok(path: Path, prev: bytes | None, full: bytes, res: Result, where: s
     return which
 
 
+def _other_fs_dir():
+    """A writable directory on a different file system than tempfile.gettempdir() (None if the sandbox has none)."""
+    try:
+        here = os.stat(tempfile.gettempdir()).st_dev
+        for cand in ("/dev/shm", "/run/shm", os.path.expanduser("~"), "/var/tmp"):
+            if os.path.isdir(cand) and os.access(cand, os.W_OK) and os.stat(cand).st_dev != here:
+                return cand
+    except OSError:
+        pass
+    return None
+
+
 @guarded
 def check_case(case: dict) -> Result:
     from incomplete_cooperative.run.save import save_json
     from ..faults import Injector
     res = Result()
-    root = Path(tempfile.mkdtemp(prefix="vp-c20-"))
+    # the results directory may live on another file system than the process's default scratch directory (tempfile.gettempdir())
+    base_dir = _other_fs_dir() if case.get("fs") == "other" else None
+    root = Path(tempfile.mkdtemp(prefix="vp-c20-", dir=base_dir))
+    res.label("results-dir-on-other-fs-than-TMPDIR" if base_dir else "results-dir-on-TMPDIR-fs")
     try:
         prev, full, E, log = _prepare(case, root)
         prev_names = {name for name, _ in case["history"]}
@@ -192,7 +207,7 @@ def cases(draw, small: bool):
     names = ["r%d" % i for i in range(hist_n)]
     history = [[nm, draw(spec)] for nm in names]
     new_name = draw(st.sampled_from(["new", "new", "new", "r0", "ü"]))
-    return {"history": history, "new": [new_name, draw(spec)]}
+    return {"history": history, "new": [new_name, draw(spec)], "fs": draw(st.sampled_from(["tmp", "other"]))}
 
 
 def _sample(case):
